@@ -3,7 +3,10 @@
 P="$1"; shift
 WT=/tmp/wt-try
 [ -d $WT ] || git -C /repo worktree add -q --detach $WT HEAD
-git -C $WT checkout -q --detach "$(git -C /repo rev-parse HEAD)"; git -C $WT checkout -q -- .; git -C $WT clean -fdq
+BASE="$(git -C /repo rev-parse HEAD)"
+# a patch written against an older commit of /repo names it in a file BASE beside it
+[ -f "$(dirname "$P")/BASE" ] && BASE="$(cat "$(dirname "$P")/BASE")"
+git -C $WT checkout -q --detach "$BASE"; git -C $WT checkout -q -- .; git -C $WT clean -fdq
 git -C $WT apply "$P" || { echo "apply failed: $P"; exit 2; }
 mkdir -p /verif/mutation/root-try; [ -e /verif/mutation/root-try/sim ] || ln -s /verif/sim /verif/mutation/root-try/sim; [ -e /verif/mutation/root-try/known_findings.json ] || ln -s /verif/known_findings.json /verif/mutation/root-try/known_findings.json
 export GOFLAGS=-mod=mod GOPROXY=off GOSUMDB=off
